@@ -4,7 +4,10 @@ Monitor at the SecretKey trait boundary (ExtKey<G> logs every interface call and
 n-th one with a chosen error value):
  (1) equivalence: with equal tapes a setup holding its key behind the interface produces the same
      setup bytes, registration responses, credential responses, pending states and session keys as
-     one holding the same key directly, and clients cannot tell them apart;
+     one holding the same key directly, and clients cannot tell them apart; the same for external
+     keys whose serialized form is not the scalar (an opaque string of the scalar's length, and
+     HndKey handles of 12 and 80 bytes): the stored state is seed || handle || stand-in key, restores
+     from its own bytes, and the fresh and the restored server answer like the direct-key server;
  (2) interface discipline: server operations use only public_key / diffie_hellman - never
      serialize - while answering registration and login;
  (3) fault enumeration: for every n up to the number of interface calls the fault-free run made,
@@ -15,7 +18,8 @@ from . import okv, proto
 
 LEVEL = "fault_enumeration"
 RULE = ("per suite and world (default / explicit identities+context / absent password file): direct-key run vs "
-        "external-key run on equal tapes, then fail-at-n for every n in 1..calls for KeyPair::from_private_key_slice + "
+        "external-key run on equal tapes (external key = same-length scalar, opaque same-length string, 12-byte handle, 80-byte handle; "
+        "fresh and restored from the stored state), then fail-at-n for every n in 1..calls for KeyPair::from_private_key_slice + "
         "ServerSetup::new_with_key, ServerSetup::deserialize, ServerRegistration::start, ServerLogin::start; "
         "non-trivial = an operation executed with an external key (compared with the direct run or with an injected "
         "fault); distinct = distinct (suite, world, operation, n)")
@@ -34,7 +38,7 @@ def run_job(job):
     su, tier = job["suite"], job["tier"]
     rnd = proto.pyrng("c18", su, job["seed"])
     viol, samples = [], []
-    stats = {"equivalence_worlds": 0, "compared_values": 0, "ext_calls": {}, "fault_points": 0, "faults_returned": 0, "ops_with_ext": 0}
+    stats = {"equivalence_worlds": 0, "compared_values": 0, "ext_calls": {}, "fault_points": 0, "faults_returned": 0, "ops_with_ext": 0, "variants": {}}
     evals = 0
     bx = bytes.fromhex
 
@@ -108,42 +112,65 @@ def run_job(job):
                         rl = s.de("setup", bx(st.ser), out="DS2")
                         rec.append(("setup_reloaded", rl.get("re")))
                     runs[ext] = rec
-                # (1b) the same with an external key whose serialized form is an opaque handle, not the raw scalar:
-                # anything the library computes from serialize() instead of the interface's operations shows up here
+                # (1b) the same with external keys whose serialized form is NOT the raw scalar: an opaque string of the scalar's
+                # length, and handles of SecretKey::Len = 12 and 80 bytes (shorter / longer than every group's scalar).
+                # Anything the library computes from serialize() instead of the interface's operations, or any place where it
+                # assumes SecretKey::Len == SkLen, shows up here
                 if len(runs) == 2:
-                    s.cmd("ext_opaque", on=True)
-                    rng = s.rng("r", wseed)
-                    ost = s.cmd("setup_new_with_key", rng=rng, sk=bytes(b ^ 0xA5 for b in sk), ext=True, out="OS")
-                    evals += 1
-                    orec = []
-                    if ost.failed:
-                        V("an external key with an opaque serialized form cannot be used (library interprets serialize() output)", str(dict((k, v) for k, v in ost.items() if k in ("err", "panic"))))
-                    else:
-                        orec.append(("setup_pk", ost.pk))
-                        # restore from its own bytes and answer registration + login with the restored setup
-                        orl = s.de("setupx", bx(ost.ser), out="OS2")
-                        if not orl.ok:
-                            V("a setup holding an opaque external key does not restore from its own bytes", str(orl.get("err")))
-                        for srv in ("OS", "OS2") if orl.ok else ("OS",):
-                            rng = s.rng("r", wseed)
-                            s.cmd("setup_new_with_key", rng=rng, sk=bytes(b ^ 0xA5 for b in sk), ext=True, out="Odummy")
-                            a = s.cmd("creg_start", rng=rng, pw=b"pw", out_state="Ocs", out_msg="Orq")
-                            b = s.cmd("sreg_start", setup=srv, req="Orq", cred=b"id", out="Orr")
-                            c = s.cmd("creg_finish", rng=rng, state="Ocs", pw=b"pw", resp="Orr", id_u=idu, id_s=ids, out="Oup")
-                            d = s.cmd("sreg_finish", upload="Oup", out="Ofile")
-                            e = s.cmd("clogin_start", rng=rng, pw=b"pw", out_state="Ocl", out_msg="Ocq")
-                            f = s.cmd("slogin_start", rng=rng, setup=srv, file=None if fake else "Ofile", req="Ocq", cred=b"id", ctx=ctx, id_u=idu, id_s=ids,
-                                      out_state="Osl", out_msg="Ocr")
-                            evals += 7
-                            got = [("setup_pk", ost.pk), ("reg_response", b.get("msg")), ("upload", c.get("msg")), ("export_key", c.get("export_key")),
-                                   ("server_s_pk", c.get("server_s_pk")), ("KE2", f.get("msg")), ("server_state", f.get("state"))]
-                            want = dict(runs[False])
-                            for n_, v_ in got:
-                                stats["compared_values"] += 1
-                                if v_ != want[n_]:
-                                    V("server with an opaque external key (%s) differs from the direct-key server in %s" % ("restored from bytes" if srv == "OS2" else "fresh", n_),
-                                      "world %d: direct %s opaque-external %s" % (wi, str(want[n_])[:160], str(v_)[:160]))
-                    s.cmd("ext_opaque", on=False)
+                    want = dict(runs[False])
+                    dser = bx(want["setup"])
+                    for variant, kind, hlen in (("opaque", "setupx", sz.nsk), ("handle-short", "setuphs", 12), ("handle-long", "setuphl", 80)):
+                        if variant == "opaque":
+                            s.cmd("ext_opaque", on=True)
+                            mk = dict(sk=bytes(b ^ 0xA5 for b in sk), ext=True)
+                        else:
+                            mk = dict(sk=sk, hnd=variant.split("-")[1])
+                        rng = s.rng("r", wseed)
+                        ost = s.cmd("setup_new_with_key", rng=rng, out="OS", **mk)
+                        evals += 1
+                        stats["variants"][variant] = stats["variants"].get(variant, 0) + 1
+                        if ost.failed:
+                            V("an external key with an %s serialized form cannot be used (library interprets serialize() output)" % variant,
+                              str(dict((k, v) for k, v in ost.items() if k in ("err", "panic"))))
+                        else:
+                            # stored state: seed || S::serialize() || stand-in key, the outer fields equal to the direct-key server's
+                            oser = bx(ost.ser)
+                            stats["compared_values"] += 1
+                            if len(oser) != sz.nh + hlen + sz.nsk:
+                                V("stored state of a server with an %s external key has the wrong length" % variant, "world %d: %d bytes, want %d+%d+%d" % (wi, len(oser), sz.nh, hlen, sz.nsk))
+                            elif oser[:sz.nh] != dser[:sz.nh] or oser[sz.nh + hlen:] != dser[sz.nh + sz.nsk:]:
+                                V("stored state of a server with an %s external key differs from the direct-key server outside the key field" % variant,
+                                  "world %d: direct %s external %s" % (wi, dser.hex(), oser.hex()))
+                            elif variant != "opaque" and any(oser[sz.nh + i] != (0x5A ^ i) for i in range(4, hlen)):
+                                V("stored state of a server with an %s external key does not contain the key's own serialized form" % variant,
+                                  "world %d: key field %s" % (wi, oser[sz.nh:sz.nh + hlen].hex()))
+                            # restore from its own bytes and answer registration + login with the restored setup
+                            orl = s.de(kind, oser, out="OS2")
+                            evals += 1
+                            if not orl.ok:
+                                V("a setup holding an %s external key does not restore from its own bytes" % variant, "world %d: %s" % (wi, orl.get("err") or orl.get("panic")))
+                            elif orl.get("re") != ost.ser:
+                                V("a setup holding an %s external key re-encodes differently after a restore" % variant, "world %d: %s vs %s" % (wi, ost.ser, orl.get("re")))
+                            for srv in ("OS", "OS2") if orl.ok else ("OS",):
+                                rng = s.rng("r", wseed)
+                                s.cmd("setup_new_with_key", rng=rng, out="Odummy", **mk)
+                                a = s.cmd("creg_start", rng=rng, pw=b"pw", out_state="Ocs", out_msg="Orq")
+                                b = s.cmd("sreg_start", setup=srv, req="Orq", cred=b"id", out="Orr")
+                                c = s.cmd("creg_finish", rng=rng, state="Ocs", pw=b"pw", resp="Orr", id_u=idu, id_s=ids, out="Oup")
+                                d = s.cmd("sreg_finish", upload="Oup", out="Ofile")
+                                e = s.cmd("clogin_start", rng=rng, pw=b"pw", out_state="Ocl", out_msg="Ocq")
+                                f = s.cmd("slogin_start", rng=rng, setup=srv, file=None if fake else "Ofile", req="Ocq", cred=b"id", ctx=ctx, id_u=idu, id_s=ids,
+                                          out_state="Osl", out_msg="Ocr")
+                                evals += 7
+                                got = [("setup_pk", ost.pk), ("reg_response", b.get("msg")), ("upload", c.get("msg")), ("export_key", c.get("export_key")),
+                                       ("server_s_pk", c.get("server_s_pk")), ("KE2", f.get("msg")), ("server_state", f.get("state"))]
+                                for n_, v_ in got:
+                                    stats["compared_values"] += 1
+                                    if v_ != want[n_]:
+                                        V("server with an %s external key (%s) differs from the direct-key server in %s" % (variant, "restored from bytes" if srv == "OS2" else "fresh", n_),
+                                          "world %d: direct %s external %s" % (wi, str(want[n_])[:160], str(v_)[:160]))
+                        if variant == "opaque":
+                            s.cmd("ext_opaque", on=False)
                 if len(runs) == 2:
                     stats["equivalence_worlds"] += 1
                     for (n1, v1), (n2, v2) in zip(runs[False], runs[True]):
@@ -214,4 +241,7 @@ def floors(tier, stats, results):
         out.append("fewer than 12 fault points for suites %s" % missing)
     if stats.get("equivalence_worlds", 0) < 60:
         out.append("fewer than 3 equivalence worlds per suite")
+    for variant in ("opaque", "handle-short", "handle-long"):
+        if stats.get("variants", {}).get(variant, 0) < 60:
+            out.append("external key variant %s exercised in fewer than 3 worlds per suite" % variant)
     return out
